@@ -282,20 +282,36 @@ func runProcSeq(clients []client, evs []procEvent, root string, res *TaskResult)
 	}
 	dataFile := filepath.Join(dir, "000000000.data")
 	var orig []byte
+	target := dataFile
 	holder, corrupt := -1, false
 	var tr []string
 	for i, ev := range evs {
 		res.Transitions++
 		switch ev.K {
 		case "corrupt":
-			orig, _ = os.ReadFile(dataFile) // as the last holder left it
+			// a merge that is finished and not yet adopted: the damage goes into its hint file (read by the adopting Open
+			// only); otherwise into the first record of the first data file
+			target = dataFile
+			if _, err := os.Stat(filepath.Join(dir+"-merge", "000000000.merge-finished")); err == nil {
+				if st, err := os.Stat(filepath.Join(dir+"-merge", "000000000.hint")); err == nil && st.Size() > 10 {
+					target = filepath.Join(dir+"-merge", "000000000.hint")
+				}
+			}
+			orig, _ = os.ReadFile(target) // as the last holder left it
 			bad := append([]byte(nil), orig...)
 			bad[9] ^= 0x40 // inside the FIRST record (valid data follows: not a torn tail, Open must fail)
-			os.WriteFile(dataFile, bad, 0o644)
+			os.WriteFile(target, bad, 0o644)
 			corrupt = true
-			tr = append(tr, "corrupt")
+			tr = append(tr, "corrupt:"+filepath.Base(target))
 		case "repair":
-			os.WriteFile(dataFile, orig, 0o644)
+			// a failed adopting Open may already have moved the hint file into the data directory
+			moved := filepath.Join(dir, filepath.Base(target))
+			if _, err := os.Stat(target); err != nil && filepath.Ext(target) == ".hint" {
+				if _, err2 := os.Stat(moved); err2 == nil {
+					target = moved
+				}
+			}
+			os.WriteFile(target, orig, 0o644)
 			corrupt = false
 			tr = append(tr, "repair")
 		case "open":
@@ -310,6 +326,13 @@ func runProcSeq(clients []client, evs []procEvent, root string, res *TaskResult)
 				}
 				if after := dirFingerprint(dir); after != before {
 					return strings.Join(tr, " "), fmt.Sprintf("event %d %s: a rejected Open changed the directory contents", i, ev)
+				}
+			case corrupt && filepath.Ext(target) == ".hint" && r == "nil":
+				// a damaged hint file makes the ADOPTING Open fail; the merge is adopted by then, and the next Open does not
+				// read the hint any more: it may succeed. The model keeps treating the directory as damaged until Repair, so
+				// the handle is given back at once
+				if cr := clients[ev.C].Close(); cr != "nil" {
+					return strings.Join(tr, " "), fmt.Sprintf("event %d %s: Close returned %s", i, ev, cr)
 				}
 			case corrupt:
 				if r == "nil" || r == "panic" {
@@ -376,6 +399,25 @@ func enumProcSeqs(nClients, depth int, visit func(evs []procEvent) bool) {
 		}
 		return false
 	}
+	// mergePending: a Merge has finished and no Open has adopted it yet (the hint file is read by that Open only)
+	mergePending := func() bool {
+		holder, corrupt, pending := -1, false, false
+		for _, e := range evs {
+			switch e.K {
+			case "open":
+				if holder < 0 && !corrupt {
+					holder, pending = e.C, false
+				}
+			case "close":
+				holder = -1
+			case "merge":
+				pending = true
+			case "corrupt", "repair":
+				corrupt = !corrupt
+			}
+		}
+		return pending
+	}
 	closedOnce := func(c int) bool {
 		for _, e := range evs {
 			if e.K == "close" && e.C == c {
@@ -436,7 +478,7 @@ func enumProcSeqs(nClients, depth int, visit func(evs []procEvent) bool) {
 				}
 			}
 		}
-		if holder < 0 && (corrupt || !merged()) {
+		if holder < 0 && (corrupt || !merged() || mergePending()) {
 			k := "corrupt"
 			if corrupt {
 				k = "repair"
